@@ -102,8 +102,12 @@ def gen(rng, idx, tier):
                     if rng.random() < 0.75:
                         g["anchors"].append({"name": "%s_%d" % (k, i), "x": coord(rng),
                                              "y": coord(rng)})
-            if rng.random() < 0.2:
-                g["anchors"].append({"name": "_%d" % rng.randint(1, ncomp), "x": 0, "y": 0})
+            if rng.random() < 0.3:
+                # explicit NULL anchor for a component that has no other anchor
+                used_n = {int(a["name"].rpartition("_")[2]) for a in g["anchors"]}
+                free = [i for i in range(1, ncomp + 2) if i not in used_n]
+                if free:
+                    g["anchors"].append({"name": "_%d" % rng.choice(free), "x": 0, "y": 0})
         else:
             role[n] = "base"
             if rng.random() < 0.85:
@@ -113,8 +117,13 @@ def gen(rng, idx, tier):
     # every '_x' key must have a counterpart somewhere (see DESIGN section 6, C06 finding),
     # except in the dedicated stratum
     q0 = rng.random()
-    if q0 < 0.06:
+    mk0 = [g for g in glyphs if role.get(g["name"]) == "mark"]
+    if q0 < 0.06 and len(mk0) >= 2:
         stratum = "unpaired_mark_anchor"
+        k = classes[0]
+        mk0[0]["anchors"] = [{"name": "_lone", "x": 10, "y": 20}, {"name": k, "x": coord(rng), "y": coord(rng)}]
+        mk0[1]["anchors"] = [a for a in mk0[1]["anchors"] if a["name"] != "_" + k] + [
+            {"name": "_" + k, "x": coord(rng), "y": coord(rng)}]
     else:
         plain = {a["name"].split("_")[0] if a["name"][-1:].isdigit() and "_" in a["name"] else a["name"]
                  for g in glyphs for a in g["anchors"] if not a["name"].startswith("_")}
@@ -122,6 +131,17 @@ def gen(rng, idx, tier):
             g["anchors"] = [a for a in g["anchors"]
                             if not (a["name"].startswith("_") and not a["name"][1:].isdigit()
                                     and a["name"][1:] not in plain)]
+    # mark-to-mark across the Indic / non-Indic partition is a listed finding: keep the default
+    # stratum clear of it (marks of both kinds present -> no plain anchors on marks)
+    indic_marks = {n for n, _cp in S.MARKS["Deva"]}
+    mk = [g for g in glyphs if role.get(g["name"]) == "mark" or desc[g["name"]]["mark"]]
+    kinds = {(g["name"].split(".")[0] in indic_marks) for g in mk}
+    if len(kinds) > 1 and stratum == "default":
+        if rng.random() < 0.15:
+            stratum = "mkmk_cross_partition"
+        else:
+            for g in mk:
+                g["anchors"] = [a for a in g["anchors"] if a["name"].startswith("_")]
     rules = S.rules_for(desc)
     used = sorted({s for d in desc.values() for s in d["script"] if s not in ("Zyyy", "Zinh")})
     q1 = rng.random()
@@ -135,6 +155,8 @@ def gen(rng, idx, tier):
     features, rules = S.gsub_alternates(rng, desc, languagesystems=ls, rules=rules)
     lib = {}
     gdef_mode = rng.choice(["none", "none", "categories", "user_gdef"])
+    if stratum == "unpaired_mark_anchor":
+        gdef_mode = rng.choice(["categories", "user_gdef", "none"])
     if gdef_mode != "none":
         cats = {}
         for n, ro in role.items():
@@ -237,14 +259,21 @@ def run(case):
             for ro, p in zip(("base", "ligature", "mark", "component"), parts):
                 for n in p.strip("[] ").split():
                     classes[n] = ro
-    marks = set()
+    marks = set()          # glyphs that can ATTACH (carry a paired '_x' and are marks)
+    mark_glyphs = set()    # glyphs that ARE marks (class mark when classes are given)
     for n, d in anchors.items():
         paired = [k for k in d["mark"] if k in all_plain_keys]
-        if paired and (classes is None or classes.get(n) == "mark"):
+        if classes is not None:
+            if classes.get(n) == "mark":
+                mark_glyphs.add(n)
+                if paired:
+                    marks.add(n)
+        elif paired:
             marks.add(n)
+            mark_glyphs.add(n)
     if "GPOS" not in tt:
         need = any(anchors[b]["plain"].keys() & anchors[m]["mark"].keys()
-                   for b in anchors for m in marks if b != m)
+                   for b in anchors for m in marks)
         if need:
             return {"status": "violated", "counters": counters, "violations": [
                 {"mech": "no_gpos_but_matching_anchors", "detail": {}}]}
@@ -272,13 +301,13 @@ def run(case):
     for tag in gp.script_tags():
         for b in names:
             db = anchors[b]
-            b_is_mark = b in marks
+            b_is_mark = b in mark_glyphs
             for m in names:
                 dm = anchors[m]
                 m_is_mark = m in marks
                 # ---- plain (mark-to-base or mark-to-mark)
                 cands = set()
-                if m_is_mark and b != m:
+                if m_is_mark:
                     role_ok = True
                     if classes is not None and not b_is_mark:
                         role_ok = classes.get(b) == "base"
@@ -305,7 +334,7 @@ def run(case):
                 ncomp = max(list(db["lig"]) + list(db["null"]) + [0])
                 for comp in range(1, ncomp + 2):
                     lc = set()
-                    if m_is_mark and b != m:
+                    if m_is_mark:
                         for k, pt in (db["lig"].get(comp) or {}).items():
                             if k in dm["mark"]:
                                 mp = dm["mark"][k]
@@ -352,4 +381,38 @@ def _judge(violations, bump, b, m, tag, comp, cands, got, res, b_is_mark, strict
 
 
 def classify(v, case):
+    det = v["detail"]
+    if v["mech"] == "missing_attachment" and not det.get("hidden_by_flags"):
+        # a glyph classed 'mark' whose own '_x' anchors have no counterpart anywhere is dropped from
+        # the writer's mark set; being classed mark it is not a mark-to-base base either, so marks
+        # with matching anchors are never attached to it
+        cats = case["ufo"]["lib"].get("public.openTypeCategories")
+        b = det["base"]
+        if case["gdef_mode"] != "none":
+            g = next(x for x in case["ufo"]["glyphs"] if x["name"] == b)
+            plain = set()
+            for x in case["ufo"]["glyphs"]:
+                for a in x["anchors"]:
+                    im, key, num = parse_anchor(a["name"])
+                    if not im and key:
+                        plain.add(key)
+            own_mark_keys = [parse_anchor(a["name"])[1] for a in g["anchors"]
+                             if parse_anchor(a["name"])[0]]
+            is_mark_class = (cats or {}).get(b) == "mark"
+            if cats is None:
+                import re
+                mm = re.search(r"GlyphClassDef ([^;]*);", case["ufo"]["features"])
+                parts = [p.strip() for p in mm.group(1).split(",")] if mm else []
+                is_mark_class = len(parts) > 2 and b in parts[2].strip("[] ").split()
+            if is_mark_class and not any(k in plain for k in own_mark_keys):
+                return "classed_mark_without_paired_mark_anchor_is_no_base"
+    if v["mech"] == "missing_attachment" and det.get("hidden_by_flags"):
+        # mark-to-mark lookups carry a mark filtering set that only holds the marks of the
+        # lookup's own partition (Indic glyphs -> abvm/blwm, all others -> mkmk): a mark of the
+        # other partition is skipped, so it never attaches to a mark across the partition
+        indic = {n for n, _cp in S.MARKS["Deva"]}
+        b, m = det["base"].split(".")[0], det["mark"].split(".")[0]
+        names = {g["name"] for g in case["ufo"]["glyphs"]}
+        if (b in indic) != (m in indic) and any(n.split(".")[0] in indic for n in names):
+            return "mkmk_across_indic_partition_hidden_by_filtering_set"
     return None
